@@ -171,6 +171,10 @@ func Load(cfg Config) (*Prog, error) {
 		}
 	}
 	sort.Slice(p.RepoFns, func(i, j int) bool { return p.RepoFns[i].String() < p.RepoFns[j].String() })
+	curProg = p
+	resetInlineMemo()
+	aliasOf = map[*ssa.Function]string{}
+	computeInlinable(p)
 	// resolve anchors
 	aliasOf = map[*ssa.Function]string{}
 	canonFn = map[string]*ssa.Function{}
@@ -193,6 +197,8 @@ func Load(cfg Config) (*Prog, error) {
 			}
 		}
 	}
+	computeInlinable(p)
+	resetInlineMemo()
 	return p, nil
 }
 
